@@ -314,6 +314,29 @@ def main(ctx: Ctx) -> int:
                 traces.append({"tid": tid, "R": [{"tmin": dd["tmin"], "tmax": dd["tmax"], "idx": dd["idx"]} for dd in case["declared"]],
                                "mods": sorted(case["mods"]), "ev": ev, "be": tag})
                 meta[tid] = case
+    if pid == "C06" and meta:
+        # the batched kernels of the cusparse back-end, for the first networks: one event per kernel
+        for ci2 in sorted({id(c_): c_ for c_ in meta.values()}.values(), key=lambda c_: str(c_["files"]))[: (3 if ctx.quick else 20)]:
+            try:
+                flist2 = []
+                d2 = ctx.sub("in") / f"batch_{len(traces)}"
+                d2.mkdir()
+                for j, (fmt_, text_) in enumerate(x for x in ci2["files"] if x[0] != "edit"):
+                    f2 = d2 / f"f{j}.{fmt_}"
+                    f2.write_text(text_)
+                    flist2.append((str(f2), fmt_))
+                net2 = Network(filelist=[a for a, _ in flist2], fileformats=[b for _, b in flist2])
+                out2 = ctx.scratch / "r" / f"batch_{len(traces)}"
+                render(net2, "cvode", "cusparse", out2, templates=["src/naunet_fex.cpp.j2", "src/naunet_jac.cpp.j2"], device="gpu")
+            except Exception:   # noqa   (reading / rendering problems of these networks are reported by the traces above)
+                continue
+            for unit in ("fex", "jac"):
+                for kname, facts in sorted(creader.batch_context((out2 / "src" / f"naunet_{unit}.cu").read_text()).items()):
+                    tid += 1
+                    traces.append({"tid": tid, "R": [], "mods": [], "be": f"cusparse {kname}",
+                                   "ev": [{"act": "Batch", "calls": facts["calls"], "own_params": facts["own_params"], "own_state": facts["own_state"]}]})
+                    meta[tid] = ci2
+        cov["batched_kernels_checked"] = sum(1 for t_ in traces if t_["be"].startswith("cusparse"))
     if pid == "C06":
         traces += runtime_traces(ctx, rng, len(traces), 2 if ctx.quick else 10)
     v = validate_traces(ctx, "Trace_Rates.tla", "Trace_Rates.cfg", traces, "rates", chunk=1500)
@@ -332,6 +355,10 @@ def main(ctx: Ctx) -> int:
         tr = bytid[t]
         at = max(1, min(rj["at"], len(tr["ev"])))
         e = tr["ev"][at - 1]
+        if tr["be"].startswith("cusparse"):
+            ctx.violation(f"C06|{clause}|kernel={tr['be'].split()[-1]}", f"batched kernel {tr['be']}: rate coefficients are not evaluated from the system's own "
+                          f"parameter record / state slice: {e}: {rj['clauses']}", {"files": meta[t]["files"], "event": e, "clauses": rj["clauses"]})
+            continue
         if tr["be"] == "runtime":
             ctx.violation(f"C06|{clause}|runtime", f"compiled Fex called in sequence: at T={e.get('T', 0) / 100} the active reactions were {e.get('active')} "
                           f"for windows {tr['R']}: {rj['clauses']}", {"trace": tr, "clauses": rj["clauses"]})
